@@ -14,6 +14,9 @@ ZeroResidualOnlyAtCorner(pts, corner) ==
 StrictlyIncreasingX(pts) == \A k \in 1..(Len(pts) - 1) : pts[k][1] < pts[k + 1][1]
 Monotone(pts) == (\A k \in 1..(Len(pts) - 1) : pts[k][2] < pts[k + 1][2])
                  \/ (\A k \in 1..(Len(pts) - 1) : pts[k][2] > pts[k + 1][2])
+\* non-strict version: one arm may be flat (slope 0)
+WeaklyMonotone(pts) == (\A k \in 1..(Len(pts) - 1) : pts[k][2] <= pts[k + 1][2])
+                       \/ (\A k \in 1..(Len(pts) - 1) : pts[k][2] >= pts[k + 1][2])
 IsElbow(pts, corner) ==
     /\ corner >= 4 /\ corner <= Len(pts) - 3          \* each arm at least 3 segments long
     /\ StrictlyIncreasingX(pts)
